@@ -33,7 +33,7 @@ def pmap(fn, jobs, deadline=None, workers=None, chunksize=1):
     # and jobs self-contained (nothing is inherited through globals set after the fork).
     global _POOL
     if _POOL is None:
-        _POOL = mp.get_context("fork").Pool(workers)
+        _POOL = mp.get_context("fork").Pool(workers, initializer=_worker_init)
     pool = _POOL
     # Work is handed out lazily and the hand-out stops at the deadline: what is already in flight completes and the iteration ends
     # by itself.  (Pool.terminate() in the middle of a run can deadlock on the queue lock held by an idle worker; it is never
@@ -67,6 +67,17 @@ def pmap(fn, jobs, deadline=None, workers=None, chunksize=1):
         raise RuntimeError("worker failed:\n" + failed)
 
 
+def _worker_init():
+    """a worker never outlives the process that forked it (PR_SET_PDEATHSIG = SIGKILL)"""
+    try:
+        import ctypes, signal
+        ctypes.CDLL("libc.so.6", use_errno=True).prctl(1, signal.SIGKILL, 0, 0, 0)
+        if os.getppid() == 1:
+            os._exit(0)
+    except Exception:
+        pass
+
+
 def _kill_pool():
     """abandon the pool without the (deadlock prone) orderly shutdown; only used when the run is lost anyway"""
     global _POOL
@@ -75,6 +86,12 @@ def _kill_pool():
         # the object must never be finalised: Pool's finaliser runs the orderly shutdown, which blocks for ever on the queue lock
         # a killed worker was holding
         _DEAD.append(pool)
+        try:
+            # the pool's maintenance thread must not fork replacements for the workers killed below
+            pool._state = "TERMINATE"
+            pool._worker_handler._state = "TERMINATE"
+        except Exception:
+            pass
         for p in list(getattr(pool, "_pool", [])):
             try:
                 p.kill()
